@@ -872,3 +872,273 @@ class ProjectClone(FSContract):
 
 
 CONTRACTS += [JobNew(), OpenJobBySP(), JobRemove(), JobMove(), ProjectClone()]
+
+
+# ============================================================================= callee view of the re-key (_StatePointDict._save), clauses of SPRekey.post
+
+
+def stub_rekey(interp, b):
+    from signac.errors import DestinationExistsError, JobsCorruptedError
+    ex, ctx = interp.ex, interp.ctx
+    sd = b["self"]
+    jobs = sd.fields["_jobs"]
+    if not isinstance(jobs, list) or not jobs:
+        raise Unsupported("re-key stub needs a concrete handle list")
+    newsp = spv_of(sd)
+    new = CALC(newsp)
+    first = jobs[0]
+    old = first.fields["_id"].e
+    p = first.fields["_project"].p
+    fs = ctx.fs
+    ko, kn = JD.mk(p, old), JD.mk(p, new)
+    if ex.decide(old == new, "rekey:same-id"):
+        return None
+    initialised = z3.And(fs.dirs[ko], Node.is_File(fs.ent[ko][Name.SP]))
+    j = z3.Const("rk_j", JD)
+
+    def follow():
+        for h in jobs:
+            h.fields.update(_id=SId(new), _path=None, _document=None, _stores=None, _cwd=[])
+        sd.fields["_filename"] = LIn(p, new, Name.SP)
+
+    if not ex.decide(initialised, "rekey:initialised"):
+        follow()
+        return None
+    f1 = FS.fresh(ex.fresh_name("rekey"))
+    others = z3.And(z3.ForAll([j], z3.Implies(z3.And(j != ko, j != kn), z3.And(f1.dirs[j] == fs.dirs[j], f1.ent[j] == fs.ent[j]))), f1.pf == fs.pf, f1.ws == fs.ws)
+    ex.assume(others)
+    ex.assume(z3.Implies(z3.And(fs.dirs[kn], fs.ent[kn] != EMPTY), z3.And(f1.dirs[kn], f1.ent[kn] == fs.ent[kn])))
+    outcome = ex.choose(4 if ctx.faults else 2, "rekey-outcome")
+    if outcome == 0:
+        ex.assume(z3.And(z3.Or(z3.Not(fs.dirs[kn]), fs.ent[kn] == EMPTY), f1.dirs[kn], z3.Not(f1.dirs[ko]), f1.ent[ko] == EMPTY,
+                         f1.ent[kn] == z3.Store(z3.Store(fs.ent[ko], Name.SP, f1.ent[kn][Name.SP]), Name.SPBAK, Node.Absent),
+                         f1.valid(p, new), parsed(Node.data(f1.ent[kn][Name.SP])) == newsp))
+        ctx.effect(interp, "re-key (directory moved)", f1)
+        follow()
+        # the final init() registers the new state point
+        first.fields["_project"].fields["_sp_cache"].sym_setitem(ex, SId(new), SSP(newsp))
+        return None
+    if outcome == 1:
+        raise RaiseSignal(DestinationExistsError(SId(new)))
+    ctx.effect(interp, "re-key (failed)", f1)
+    if outcome == 2:
+        e = z3.Int(ex.fresh_name("errno"))
+        ex.assume(z3.And(e != errno.ENOENT, e > 0))
+        if ex.decide(None, "rekey-failed:handles-updated"):
+            follow()
+        raise RaiseSignal(SymOSError(e))
+    follow()
+    ex.assume(z3.Not(f1.valid(p, new)))
+    raise RaiseSignal(JobsCorruptedError([SId(new)]))
+
+
+# ============================================================================= Job.statepoint (getter / setter), update_statepoint
+
+
+class SPGetter(FSContract):
+    target = f"{JOB}.Job.statepoint"
+    properties = ("C02", "C03", "C08", "C09")
+    inline = GETTERS + (f"{JOB}._StatePointDict.__init__", f"{PRJ}.Project._register")
+    callees = {f"{JOB}._StatePointDict.load": stub_sp_load}
+
+    def setup(self, interp, case):
+        ex, ctx = interp.ex, interp.ctx
+        ctx.fs_init(ex)
+        proj = mk_project(ex)
+        job = mk_job(interp, proj, "me")
+        ex.assume(proj.fields["_sp_cache"].valid())
+        return [job], {}, {"job": job, "proj": proj, "p": proj.p, "me": job.me}
+
+    def post(self, interp, case, pre, outcome):
+        from signac.errors import JobsCorruptedError
+        ex, ctx = interp.ex, interp.ctx
+        job, proj, p, me = pre["job"], pre["proj"], pre["p"], pre["me"]
+        ex.oblige(self.oname("frame:reads_only"), ctx.fs.eq(ctx.fs0))
+        ex.oblige(self.oname("inv:cache_entries_hash_to_their_key"), proj.fields["_sp_cache"].valid())
+        if outcome[0] == "return":
+            sd = outcome[1]
+            ok = isinstance(sd, Obj) and sd.cls.name == "_StatePointDict" and job.fields.get("_statepoint") is sd and job.fields["_statepoint_requires_init"] is False
+            ex.oblige(self.oname("ensures:returns_the_materialised_state_point_object"), z3.BoolVal(ok))
+            if ok:
+                ex.oblige(self.oname("ensures:state_point_data_hashes_to_the_job_id"), CALC(spv_of(sd)) == me)
+                for lab, c in inv_job(ctx, job):
+                    ex.oblige(self.oname("inv:" + lab), c)
+        else:
+            exc = outcome[1]
+            ex.oblige(self.oname("raises:only_when_a_lazy_load_fails"), z3.BoolVal(isinstance(exc, (JobsCorruptedError, SymOSError))))
+            ex.oblige(self.oname("raises:handle_still_lazy"), z3.BoolVal(job.fields["_statepoint_requires_init"] is True))
+
+
+class SPSetter(FSContract):
+    target = f"{JOB}.Job.statepoint.setter"
+    properties = ("C03", "C04", "C08")
+    shard_bits = 2
+    inline = GETTERS + (f"{JOB}.Job.statepoint", f"{JOB}._StatePointDict.__init__", f"{PRJ}.Project._register")
+    callees = {f"{JOB}._StatePointDict.load": stub_sp_load, f"{JOB}._StatePointDict._save": stub_rekey}
+
+    def setup(self, interp, case):
+        ex, ctx = interp.ex, interp.ctx
+        ctx.fs_init(ex)
+        proj = mk_project(ex)
+        job = mk_job(interp, proj, "me")
+        ex.assume(proj.fields["_sp_cache"].valid())
+        newsp = z3.Const("sp_assigned", SPv)
+        ex.assume(z3.And(newsp != NONEV, CALC(NONEV) != CALC(newsp)))
+        ex.assume(z3.And(ctx.fs0.ent[JD.mk(proj.p, job.me)][Name.SPBAK] == Node.Absent))
+        return [job, SSP(newsp)], {}, {"job": job, "proj": proj, "p": proj.p, "me": job.me, "newsp": newsp}
+
+    def post(self, interp, case, pre, outcome):
+        from signac.errors import DestinationExistsError
+        ex, ctx = interp.ex, interp.ctx
+        job, proj, p, me, newsp = pre["job"], pre["proj"], pre["p"], pre["me"], pre["newsp"]
+        fs0, fs = ctx.fs0, ctx.fs
+        ex.oblige(self.oname("inv:cache_entries_hash_to_their_key"), proj.fields["_sp_cache"].valid())
+        if outcome[0] == "return":
+            jid = job.fields["_id"]
+            ex.oblige(self.oname("ensures:handle_has_the_id_of_the_new_state_point"), jid.e == CALC(newsp) if isinstance(jid, SId) else z3.BoolVal(False))
+            c = proj.fields["_sp_cache"]
+            ex.oblige(self.oname("ensures:new_state_point_registered_under_its_own_id"), z3.And(c.dom[CALC(newsp)], c.val[CALC(newsp)] == newsp))
+            sd = job.fields.get("_statepoint")
+            ex.oblige(self.oname("ensures:state_point_object_holds_the_new_value"), spv_of(sd) == newsp if isinstance(sd, Obj) else z3.BoolVal(False))
+        else:
+            exc = outcome[1]
+            if isinstance(exc, DestinationExistsError):
+                ex.oblige(self.oname("raises:DestinationExistsError_leaves_disk_untouched"), fs.eq(fs0))
+
+
+class SUpdate(Sym):
+    """the `update` mapping of update_statepoint: n (key, value) entries, abstract"""
+
+    def __init__(self, e):
+        self.e = e
+
+    def sym_getattr(self, ex, name):
+        if name == "items":
+            return NativeStub(lambda: SUpdItems(self), "update.items")
+        raise Unsupported(f"update.{name}")
+
+
+UpdV = z3.DeclareSort("UpdV")
+UKey = z3.DeclareSort("UKey")
+UVal = z3.DeclareSort("UVal")
+upd_n = z3.Function("upd_n", UpdV, z3.IntSort())
+upd_key = z3.Function("upd_key", UpdV, z3.IntSort(), UKey)
+upd_val = z3.Function("upd_val", UpdV, z3.IntSort(), UVal)
+sp_get = z3.Function("sp_get", SPv, UKey, UVal, UVal)        # dict.get(key, default) on a state point value
+uval_eq = z3.Function("uval_eq", UVal, UVal, z3.BoolSort())   # Python == on values
+sp_updated = z3.Function("sp_updated", SPv, UpdV, SPv)       # dict(sp); .update(upd)
+
+
+class SUpdItems(Sym):
+    def __init__(self, u):
+        self.u = u
+
+    def sym_iter(self, ex):
+        from pyvc.core import CutSeq
+        u = self.u.e
+        return CutSeq(upd_n(u), lambda interp, i: (SUKey(upd_key(u, i)), SUVal(upd_val(u, i))), label="update.items()")
+
+
+class SUKey(Sym):
+    def __init__(self, e):
+        self.e = e
+
+
+class SUVal(Sym):
+    def __init__(self, e):
+        self.e = e
+
+    def sym_eq(self, ex, other):
+        if isinstance(other, SUVal):
+            return SBool(uval_eq(self.e, other.e))
+        raise Unsupported("value ==")
+
+
+class SSPCopy(SSP):
+    """a plain dict copy of a state point (statepoint()): supports .get / .update as abstract functions"""
+
+    def sym_getattr(self, ex, name):
+        if name == "get":
+            def get(k, default=None):
+                if isinstance(k, SUKey) and isinstance(default, SUVal):
+                    return SUVal(sp_get(self.e, k.e, default.e))
+                raise Unsupported("statepoint.get arguments")
+            return NativeStub(get, "dict.get")
+        if name == "update":
+            def update(u):
+                if not isinstance(u, SUpdate):
+                    raise Unsupported("dict.update argument")
+                self.e = sp_updated(self.e, u.e)
+            return NativeStub(update, "dict.update")
+        raise Unsupported(f"dict.{name}")
+
+
+class UpdateStatepoint(FSContract):
+    target = f"{JOB}.Job.update_statepoint"
+    properties = ("C03", "C04")
+    inline = GETTERS + (f"{JOB}.Job.statepoint", f"{JOB}._StatePointDict.__init__", f"{PRJ}.Project._register")
+    callees = {f"{JOB}._StatePointDict.load": stub_sp_load}
+    faults = False
+
+    def cases(self):
+        return [{"overwrite": False}, {"overwrite": True}]
+
+    def loops(self, case):
+        from pyvc.interp import LoopSpec
+        from pyvc.theory_j import FA_idx
+
+        def inv(interp, fr, i, seq):
+            g = interp.ctx.ghost
+            u, cur = g["upd"], g["cur"]
+            # no conflict among the entries seen so far
+            return FA_idx(0, i, lambda k: uval_eq(sp_get(cur, upd_key(u, k), upd_val(u, k)), upd_val(u, k)))
+        return {"update.items()": LoopSpec("entries", inv, havoc={}, scratch=("key", "value"))}
+
+    def make_ctx(self, case):
+        ctx = super().make_ctx(case)
+
+        def setter(interp, b):
+            ctx.ghost["assigned"] = b["new_statepoint"]
+            return None
+        ctx.callee_contracts[f"{JOB}.Job.statepoint.setter"] = setter
+        orig = ctx.dep_call
+
+        def dep_call(interp, o, name, args, kw, via_super=False):
+            if o.cls.name == "_StatePointDict" and name == "__call__":
+                return SSPCopy(spv_of(o))
+            return orig(interp, o, name, args, kw, via_super)
+        ctx.dep_call = dep_call
+        return ctx
+
+    def setup(self, interp, case):
+        ex, ctx = interp.ex, interp.ctx
+        ctx.fs_init(ex)
+        proj = mk_project(ex)
+        job = mk_job(interp, proj, "me", lazy=False)
+        # the read-only cached copy may be STALE (known finding F4): the contract does not assume it equals the live state point
+        job.fields["_cached_statepoint"] = SSP(z3.Const("sp_cached_possibly_stale", SPv))
+        u = z3.Const("upd", UpdV)
+        ex.assume(upd_n(u) >= 0)
+        ctx.ghost.update({"upd": u, "cur": job.sp})
+        kw = {"overwrite": True} if case["overwrite"] else {}
+        return [job, SUpdate(u)], kw, {"job": job, "u": u, "cur": job.sp}
+
+    def post(self, interp, case, pre, outcome):
+        from pyvc.theory_j import EX_idx, FA_idx
+        ex, ctx = interp.ex, interp.ctx
+        u, cur = pre["u"], pre["cur"]
+        conflict = EX_idx(0, upd_n(u), lambda k: z3.Not(uval_eq(sp_get(cur, upd_key(u, k), upd_val(u, k)), upd_val(u, k))))
+        assigned = ctx.ghost.get("assigned")
+        if outcome[0] == "return":
+            if not case["overwrite"]:
+                ex.oblige(self.oname("ensures:returns_normally_only_without_conflicting_keys"), z3.Not(conflict))
+            ex.oblige(self.oname("ensures:assigns_the_live_state_point_updated_with_the_mapping"),
+                      spv_of(assigned) == sp_updated(cur, u) if assigned is not None else z3.BoolVal(False))
+        else:
+            exc = outcome[1]
+            ex.oblige(self.oname("raises:KeyError_only_for_a_conflicting_key_without_overwrite"),
+                      z3.And(z3.BoolVal(isinstance(exc, KeyError) and not case["overwrite"]), conflict))
+            ex.oblige(self.oname("raises:KeyError_has_no_effect"), z3.And(ctx.fs.eq(ctx.fs0), z3.BoolVal(assigned is None)))
+
+
+CONTRACTS += [SPGetter(), SPSetter(), UpdateStatepoint()]
